@@ -1005,6 +1005,13 @@ class OmniParser(PVLParser):
                     last_v, grammar=self.grammar, decoder=self.decoder
                 )
                 if (
+                    (last_v is None or isinstance(last_v, bool))
+                    and self._value_token is not None
+                ):
+                    # A decoded keyword (null, true, false) no longer
+                    # shows how the name was written.
+                    last_token = self._value_token
+                if (
                     last_token.is_parameter_name()
                     # A quoted string cannot be a parameter name, and neither
                     # can the placeholder of an earlier empty value or a
